@@ -28,6 +28,9 @@ type jobC14 struct {
 	ShareProp bool    `json:"share_prop"` // use the case-wide *Properties pointer
 	ReadLen   int     `json:"readlen"`
 	Yield     bool    `json:"yield"`
+	// Cut > 0 (reader jobs): the reader is given only the first Cut per mille
+	// of its stream and must fail the way it does when run alone
+	Cut int `json:"cut,omitempty"`
 }
 
 // caseC14 is a set of jobs run sequentially and then concurrently.
@@ -63,6 +66,9 @@ func drawC14(t *rapid.T) caseC14 {
 		j.ShareProp = rapid.Bool().Draw(t, "shareprop")
 		j.ReadLen = rapid.SampledFrom([]int{1, 100, 4096, 65536}).Draw(t, "readlen")
 		j.Yield = rapid.Bool().Draw(t, "yield")
+		if j.Kind[len(j.Kind)-1] == 'r' && rapid.IntRange(0, 3).Draw(t, "failing") == 0 {
+			j.Cut = rapid.IntRange(1, 999).Draw(t, "cut")
+		}
 		c.Jobs = append(c.Jobs, j)
 	}
 	// rarely taken paths run concurrently: several readers (and writers) over
@@ -154,6 +160,9 @@ func compressJob(j jobC14, data []byte, shared *lzma.Properties) ([]byte, error)
 }
 
 func decompressJob(j jobC14, comp []byte) ([]byte, error) {
+	if j.Cut > 0 {
+		comp = comp[:int(int64(len(comp))*int64(j.Cut)/1000)]
+	}
 	src := &yieldReader{r: bytes.NewReader(comp), yield: j.Yield}
 	var r io.Reader
 	var err error
@@ -262,6 +271,15 @@ func checkC14(c caseC14, rec *ev.Rec) *ev.Failure {
 			want[i] = result{comp, nil}
 		} else {
 			out, err := decompressJob(j, comp)
+			if j.Cut > 0 {
+				// a reader on a truncated stream: fails (C05), after a prefix
+				if err == nil || !bytes.HasPrefix(datas[j.Data], out) {
+					rec.Class("sequential_truncated_read_unexpected(other property)")
+					return nil
+				}
+				want[i] = result{out, err}
+				continue
+			}
 			if err != nil || !bytes.Equal(out, datas[j.Data]) {
 				rec.Class("sequential_read_fails(other property)")
 				return nil
@@ -271,6 +289,14 @@ func checkC14(c caseC14, rec *ev.Rec) *ev.Failure {
 	}
 	got := conc2
 	for i, j := range c.Jobs {
+		if j.Cut > 0 {
+			if got[i].err == nil || got[i].err.Error() != want[i].err.Error() || !bytes.Equal(got[i].out, want[i].out) {
+				return ev.Fail(fmt.Sprintf("job %d (%s on the first %d per mille of its stream): concurrent run gives (%d bytes, %v), sequential run (%d bytes, %v)", i, j.Kind, j.Cut, len(got[i].out), got[i].err, len(want[i].out), want[i].err),
+					"result", "concurrent_differs", "kind", j.Kind, "cut", "yes")
+			}
+			rec.Class("failing_reader_job")
+			continue
+		}
 		if got[i].err != nil {
 			return ev.Fail(fmt.Sprintf("job %d (%s) fails when run concurrently with %d others: %v", i, j.Kind, len(c.Jobs)-1, got[i].err), "result", "concurrent_error", "kind", j.Kind)
 		}
@@ -319,7 +345,7 @@ func dataLens(d [][]byte) []int {
 
 func TestC14(t *testing.T) {
 	rec := ev.New("C14", "exploration")
-	rec.Rule = "built with -race: rapid draws 2-9 jobs (xz / LZMA / LZMA2 writer or reader, configuration, both match finders), some sharing read-only inputs (the same *lzma.Properties, the same data slice, the same compressed bytes), GOMAXPROCS in {1,2,4,16} and runtime.Gosched() points inside the sink / source wrappers; the jobs run sequentially (each writer twice: determinism), then concurrently from a common start signal; oracle: no race-detector report (GORACE=halt_on_error: the driver maps the report to a violation carrying the job list), every concurrent result byte-identical to its sequential result, shared inputs unmodified; one shard runs in two processes and the compressed outputs of every case must be identical in both (output identical on every run); non-trivial = >= 2 jobs with both match finders present; distinct = hash of the case"
+	rec.Rule = "built with -race: rapid draws 2-9 jobs (xz / LZMA / LZMA2 writer or reader, configuration, both match finders) - a quarter of the reader jobs are given a truncated stream and must fail, after the same bytes and with the same error, as when run alone -, some sharing read-only inputs (the same *lzma.Properties, the same data slice, the same compressed bytes), GOMAXPROCS in {1,2,4,16} and runtime.Gosched() points inside the sink / source wrappers; the jobs run sequentially (each writer twice: determinism), then concurrently from a common start signal; oracle: no race-detector report (GORACE=halt_on_error: the driver maps the report to a violation carrying the job list), every concurrent result byte-identical to its sequential result, shared inputs unmodified; one shard runs in two processes and the compressed outputs of every case must be identical in both (output identical on every run); non-trivial = >= 2 jobs with both match finders present; distinct = hash of the case"
 	rec.Assumptions = []string{"interleavings are sampled by the Go scheduler, not enumerated", "the race detector is happens-before based: unsynchronised shared state is reported when both accesses execute"}
 	drive(t, rec, drawC14, checkC14)
 }
